@@ -5,6 +5,7 @@ package rules
 
 import (
 	"go/token"
+	"go/types"
 
 	"golang.org/x/tools/go/ssa"
 )
@@ -178,17 +179,47 @@ func (ff *fnFacts) At(b *ssa.BasicBlock) []condFact {
 			for _, nf := range normFact(iff.Cond, i == 0) {
 				nf.Origin = x
 				out = append(out, nf)
-				out = append(out, ff.throughBoolPhi(nf, 0)...)
 			}
 		}
 	}
+	direct := out
+	for _, nf := range direct {
+		out = append(out, ff.throughBoolPhi(nf, direct, 0)...)
+	}
 	return out
+}
+
+// exprKey: a structural name for a side-effect-free expression over SSA values, so that the same comparison computed
+// twice (go/ssa does not share them) is recognised as the same condition.
+func exprKey(v ssa.Value, depth int) string {
+	if depth > 4 {
+		return v.Name()
+	}
+	switch x := v.(type) {
+	case *ssa.Const:
+		return x.String()
+	case *ssa.BinOp:
+		return "(" + exprKey(x.X, depth+1) + x.Op.String() + exprKey(x.Y, depth+1) + ")"
+	case *ssa.UnOp:
+		if x.Op != token.MUL && x.Op != token.ARROW {
+			return x.Op.String() + exprKey(x.X, depth+1)
+		}
+	case *ssa.Convert:
+		return x.Type().String() + "(" + exprKey(x.X, depth+1) + ")"
+	case *ssa.Call:
+		if b, ok := x.Common().Value.(*ssa.Builtin); ok && b.Name() == "len" && len(x.Common().Args) == 1 {
+			if _, isStr := x.Common().Args[0].Type().Underlying().(*types.Basic); isStr {
+				return "len(" + exprKey(x.Common().Args[0], depth+1) + ")" // strings are immutable
+			}
+		}
+	}
+	return v.Name()
 }
 
 // throughBoolPhi: a branch on a merged boolean (the value form of `a || b`, `a && b`: constant on the edges that
 // short-circuit). Knowing the outcome rules out the constant edges that say otherwise; if one edge is left, control
 // came that way: the facts of that predecessor hold, and so does the edge's own value.
-func (ff *fnFacts) throughBoolPhi(f condFact, depth int) []condFact {
+func (ff *fnFacts) throughBoolPhi(f condFact, known []condFact, depth int) []condFact {
 	phi, ok := f.Cond.(*ssa.Phi)
 	if !ok || depth > 3 {
 		return nil
@@ -200,6 +231,31 @@ func (ff *fnFacts) throughBoolPhi(f condFact, depth int) []condFact {
 		}
 		if k, isK := constBool(e); isK && k != f.Val {
 			continue
+		}
+		// the edge is taken only under a branch outcome that a known fact contradicts (the same comparison, computed
+		// again, came out the other way)
+		pred := phi.Block().Preds[i]
+		if iff, ok := lastIf(pred); ok && len(pred.Succs) == 2 && pred.Succs[0] != pred.Succs[1] {
+			contradicted := false
+			for si, sc := range pred.Succs {
+				if sc != phi.Block() {
+					continue
+				}
+				for _, ef := range normFact(iff.Cond, si == 0) {
+					ek := exprKey(ef.Cond, 0)
+					for _, kf := range known {
+						if kf.Val != ef.Val && kf.Cond != ef.Cond && exprKey(kf.Cond, 0) == ek {
+							contradicted = true
+						}
+						if kf.Val != ef.Val && kf.Cond == ef.Cond {
+							contradicted = true
+						}
+					}
+				}
+			}
+			if contradicted {
+				continue
+			}
 		}
 		if left >= 0 {
 			return nil
@@ -229,7 +285,7 @@ func (ff *fnFacts) throughBoolPhi(f condFact, depth int) []condFact {
 		for _, nf := range normFact(phi.Edges[left], f.Val) {
 			nf.Origin = pred
 			out = append(out, nf)
-			out = append(out, ff.throughBoolPhi(nf, depth+1)...)
+			out = append(out, ff.throughBoolPhi(nf, known, depth+1)...)
 		}
 	}
 	return out
